@@ -242,6 +242,9 @@ func (i *Identity) Unwrap(stanzas []*age.Stanza) (fileKey []byte, err error) {
 
 	// Phase 2: plugin responds with various commands and a file key
 	sr := format.NewStanzaReader(bufio.NewReader(conn))
+	// fileKeySeen is tracked separately from fileKey, which is nil for a
+	// file-key stanza with an empty body.
+	var fileKeySeen bool
 ReadLoop:
 	for {
 		s, err := i.ui.readStanza(i.name, sr)
@@ -262,9 +265,10 @@ ReadLoop:
 			if n != 0 {
 				return nil, fmt.Errorf("malformed file-key stanza: unexpected index")
 			}
-			if fileKey != nil {
+			if fileKey != nil || fileKeySeen {
 				return nil, fmt.Errorf("received duplicated file-key stanza")
 			}
+			fileKeySeen = true
 
 			fileKey = s.Body
 
